@@ -384,6 +384,40 @@ def run_keys(case, ctx):
                                       "after set_params(%s=...) %s differs from the object rebuilt from the reported "
                                       "parameters" % (key, m), cfg=c2)
                         break
+        # prefixed naming (c_<name> / e_<name>): names both sub-estimators own, both prefixed versions in ONE call
+        if spec.name in PREFIX:
+            pre = sorted(PREFIX[spec.name].values())
+            shared = sorted({k[len(pre[0]):] for k in p if k.startswith(pre[0])} &
+                            {k[len(pre[1]):] for k in p if k.startswith(pre[1])})
+            for nm_ in shared:
+                e5 = spec.make(vi)
+                b5 = safe_get(e5, ctx, K, cfg)
+                if b5 is None:
+                    continue
+                upd5 = {}
+                for pf in pre:
+                    v5, ok5 = alt_value(spec, pf + nm_, b5[pf + nm_], rng, e5)
+                    if ok5:
+                        upd5[pf + nm_] = v5
+                if len(upd5) < 2:
+                    continue
+                for order in (sorted(upd5), sorted(upd5, reverse=True)):
+                    e5 = spec.make(vi)
+                    b5 = safe_get(e5, ctx, K, cfg)
+                    if b5 is None:
+                        break
+                    try:
+                        e5.set_params(**{k_: upd5[k_] for k_ in order})
+                    except Exception:
+                        ctx.excluded("both prefixed keys: the pair of values is refused")
+                        continue
+                    a5 = safe_get(e5, ctx, K, cfg)
+                    ctx.hit("set_params.both_prefixes")
+                    d5 = diff_params(a5, expected_after(b5, upd5, spec.name)) if a5 is not None else []
+                    if d5:
+                        ctx.violation(K + "set_params/key-not-set/prefixed", "set_params(%s) with both prefixed versions "
+                                      "of %r: %s" % (", ".join(order), nm_, "; ".join(d5[:3])), cfg=dict(cfg, keys=order))
+                        break
         # other objects with the SAME hyper-parameters (clones): set_params stores the objects it is given, it does not
         # decide by == that "nothing changed"
         from sklearn.base import clone as _clone
